@@ -215,7 +215,7 @@ def lines_agree(a, b, mode, tol):
     return len(ta) == len(tb) and all(tok_close(x, y, tol) for x, y in zip(ta, tb))
 
 
-OPS_SHOWING_TENSOR = {"new", "flat", "zeros", "nest", "add", "sub", "mul", "div", "neg", "ln", "exp", "recip", "relu", "sigmoid",
+OPS_SHOWING_TENSOR = {"act", "new", "flat", "zeros", "nest", "add", "sub", "mul", "div", "neg", "ln", "exp", "recip", "relu", "sigmoid",
                       "softmax", "scale", "powf", "sum", "reshape", "axpy", "matmul", "conv", "cop", "lfwd", "fwd", "takegrad", "show"}
 
 
